@@ -339,7 +339,7 @@ func runC19(r *Run) {
 	}
 	n := 1500
 	if r.Thorough() {
-		n = 20000
+		n = 60000
 	}
 	for i := 0; i < n; i++ {
 		body := c19Block(rr, 1+rr.Intn(3))
@@ -367,7 +367,7 @@ func runC19(r *Run) {
 	r.Imports = []string{"Model.Tok", "Model.Fmt"}
 	nm := 2500
 	if r.Thorough() {
-		nm = 25000
+		nm = 60000
 	}
 	for i := 0; i < nm; i++ {
 		body := c19Block(rr, 1+rr.Intn(3))
